@@ -429,7 +429,7 @@ fn materialise(p: usize, reg: &Reg) -> Result<Awareness, String> {
     }
     let back = read_reg(&aw);
     if &back != reg {
-        return Err(format!("cannot materialise {:?}: got {:?}", reg, back));
+        return Err(format!("cannot materialise {:?}: a fresh Awareness that is handed exactly these entries holds {:?} (an update about a client it has never heard of must be recorded with its clock, also when it is a removal)", reg, back));
     }
     Ok(aw)
 }
@@ -477,7 +477,7 @@ fn a_step(s: &AState, a: &AAct) -> Result<AState, Verdict> {
     let mut n = s.clone();
     match a {
         AAct::Set(p, _) | AAct::Clean(p) | AAct::Timeout(p, _) => {
-            let mut aw = materialise(*p, &s.peers[*p]).map_err(h)?;
+            let mut aw = materialise(*p, &s.peers[*p]).map_err(|e| ("update-about-unknown-client-not-recorded".to_string(), e))?;
             let me = ACLIENTS[*p];
             let target = match a {
                 AAct::Set(_, v) => {
@@ -516,7 +516,7 @@ fn a_step(s: &AState, a: &AAct) -> Result<AState, Verdict> {
             n.peers[*p] = after;
         }
         AAct::EmitLive(p) | AAct::EmitKnown(p) | AAct::EmitOne(p, _) => {
-            let aw = materialise(*p, &s.peers[*p]).map_err(h)?;
+            let aw = materialise(*p, &s.peers[*p]).map_err(|e| ("update-about-unknown-client-not-recorded".to_string(), e))?;
             let reg = &s.peers[*p];
             let (u, want): (AwarenessUpdate, AUpd) = match a {
                 AAct::EmitLive(_) => (
@@ -549,7 +549,7 @@ fn a_step(s: &AState, a: &AAct) -> Result<AState, Verdict> {
         }
         AAct::Deliver(p, u) => {
             let before = &s.peers[*p];
-            let after = apply_to(*p, before, &[u]).map_err(|e| ("apply-failed".to_string(), e))?;
+            let after = apply_to(*p, before, &[u]).map_err(|e| (if e.starts_with("cannot materialise") { "update-about-unknown-client-not-recorded" } else { "apply-failed" }.to_string(), e))?;
             let me = ACLIENTS[*p];
             for (c, v) in before {
                 let now = after.get(c);
@@ -589,7 +589,7 @@ fn a_step(s: &AState, a: &AAct) -> Result<AState, Verdict> {
                 }
             }
             // idempotence
-            let twice = apply_to(*p, &after, &[u]).map_err(|e| ("apply-failed".to_string(), e))?;
+            let twice = apply_to(*p, &after, &[u]).map_err(|e| (if e.starts_with("cannot materialise") { "update-about-unknown-client-not-recorded" } else { "apply-failed" }.to_string(), e))?;
             if twice != after {
                 return Err(("not-idempotent".into(), format!("deliver {:?} twice to {:?}: {:?} then {:?}", u, before, after, twice)));
             }
@@ -606,8 +606,8 @@ fn a_pairs(s: &AState) -> Result<u64, Verdict> {
     for p in 0..s.peers.len() {
         for i in 0..pool.len() {
             for j in (i + 1)..pool.len() {
-                let ab = apply_to(p, &s.peers[p], &[pool[i], pool[j]]).map_err(|e| ("apply-failed".to_string(), e))?;
-                let ba = apply_to(p, &s.peers[p], &[pool[j], pool[i]]).map_err(|e| ("apply-failed".to_string(), e))?;
+                let ab = apply_to(p, &s.peers[p], &[pool[i], pool[j]]).map_err(|e| (if e.starts_with("cannot materialise") { "update-about-unknown-client-not-recorded" } else { "apply-failed" }.to_string(), e))?;
+                let ba = apply_to(p, &s.peers[p], &[pool[j], pool[i]]).map_err(|e| (if e.starts_with("cannot materialise") { "update-about-unknown-client-not-recorded" } else { "apply-failed" }.to_string(), e))?;
                 n += 2;
                 if ab != ba {
                     return Err(("order-sensitive".into(), format!("peer {} {:?}: {:?} then {:?} gives {:?}, the other order {:?}", ACLIENTS[p], s.peers[p], pool[i], pool[j], ab, ba)));
@@ -653,7 +653,7 @@ fn a_perms(s: &AState, k: usize) -> Result<u64, Verdict> {
             let mut first: Option<Reg> = None;
             for perm in permutations(sz) {
                 let order: Vec<&AUpd> = perm.iter().map(|&i| sel[i]).collect();
-                let r = apply_to(p, &s.peers[p], &order).map_err(|e| ("apply-failed".to_string(), e))?;
+                let r = apply_to(p, &s.peers[p], &order).map_err(|e| (if e.starts_with("cannot materialise") { "update-about-unknown-client-not-recorded" } else { "apply-failed" }.to_string(), e))?;
                 n += 1;
                 match &first {
                     None => first = Some(r),
@@ -682,7 +682,7 @@ fn a_converge(s: &AState) -> Result<(), Verdict> {
                 if dst == src {
                     continue;
                 }
-                let after = apply_to(dst, &regs[dst], &[&u]).map_err(|e| ("apply-failed".to_string(), e))?;
+                let after = apply_to(dst, &regs[dst], &[&u]).map_err(|e| (if e.starts_with("cannot materialise") { "update-about-unknown-client-not-recorded" } else { "apply-failed" }.to_string(), e))?;
                 if after != regs[dst] {
                     changed = true;
                     regs[dst] = after;
